@@ -419,6 +419,32 @@ PUML_TABLE: dict[str, list[tuple]] = {
 # ---- loop bodies: kill paths and break points
 _SG = "P:sub_graph_node.sub_graph"
 KILL_TABLE: dict[str, list[tuple]] = {
+    # which model nodes a path of a gate stands for (compared with the
+    # targets of the kill edges)
+    "get_node_as_list": [
+        ("an OPERATOR node stands for the leaves of its gate", "ret", "", "",
+         ("P:node.traverse_logic('outgoing')",),
+         [("cmp", "P:node.operator", "Is", "None", "0")], [], ""),
+        ("an EVENT node stands for itself - also when it owns a gate of its "
+         "own (the path begins with that event, not with what follows it)",
+         "ret", "", "", ("[P:node]",),
+         [("cmp", "P:node.operator", "Is", "None", "1")], [],
+         "a kill branch that starts with an event followed by a gate is no "
+         "longer recognised; the gate loses its lonely-merge path"),
+    ],
+    "Node.traverse_logic": [
+        ("event nodes of the gate are its leaves", "call", "append", "[]",
+         ("each(getattr(P:self,(P:direction Add '_logic')))",),
+         [("cmp", "each(getattr(P:self,(P:direction Add '_logic')))."
+           "operator", "Is", "None", "1")], [], ""),
+        ("nested operators contribute their own leaves", "call", "extend",
+         "[]", ("each(getattr(P:self,(P:direction Add '_logic')))."
+                "traverse_logic(P:direction)",),
+         [("cmp", "each(getattr(P:self,(P:direction Add '_logic')))."
+           "operator", "Is", "None", "0")], [], ""),
+        ("the collected leaves are the result", "ret", "", "", ("[]",), [],
+         [], ""),
+    ],
     "get_node_to_node_map_from_edges": [
         ("every kill edge is recorded under its source", "call", "add",
          "{}[each(P:edges)[0]]", ("each(P:edges)[1]",), [], [], ""),
